@@ -220,10 +220,8 @@ func (db *SpecDB) parseSpecFile(path string, src []byte, pkgShort string, truste
 			var props []string
 			if strings.HasPrefix(rest, "[") {
 				j := strings.Index(rest, "]")
-				props = strings.Split(rest[1:j], ",")
-				for i := range props {
-					props[i] = strings.TrimSpace(props[i])
-				}
+				// property ids separated by commas and/or blanks
+				props = strings.FieldsFunc(rest[1:j], func(r rune) bool { return r == ',' || r == ' ' || r == '\t' })
 				rest = strings.TrimSpace(rest[j+1:])
 			}
 			c, err := mkClause(rest)
